@@ -18,4 +18,7 @@ MUTATIONS = {
     "c05-single-offset-frame": (["C05"], C, "        offset = self.frames[0].value\n", "        offset = self.frames[0].to_phase().value\n"),
     "c05-sizes0-starting": (["C05"], C, "        sizes[0] -= starting_frame.value", "        sizes[0] += starting_frame.value"),
     "c05-scan-codons-step": (["C05"], C, "            c = Codon(str(seq[i : i + 3]).upper())\n            yield c\n            if truncate_at_in_frame_stop and c.is_stop_codon:\n                break", "            c = Codon(str(seq[i : i + 3]).upper())\n            if truncate_at_in_frame_stop and c.is_stop_codon:\n                break\n            yield c"),
+    "c05-optimize-first-frame-genomic": (["C05"], C, "        new_loc = self.chunk_relative_location.optimize_blocks()\n        first_frame = next(self._frame_iter())", "        new_loc = self.chunk_relative_location.optimize_blocks()\n        first_frame = self.frames[0]"),
+    "c05-optimize-combine-keeps-loc": (["C05"], C, "            new_loc = self.chunk_relative_location.optimize_and_combine_blocks()\n        else:\n            new_loc = self.chunk_relative_location\n        first_frame = next(self._frame_iter())", "            new_loc = self.chunk_relative_location.optimize_and_combine_blocks()\n        else:\n            new_loc = self.chunk_relative_location\n        first_frame = CDSFrame.ZERO"),
+    "c05-phases-read-as-frames": (["C05"], C, "            self.frames = [x.to_frame() for x in frames_or_phases]", "            self.frames = [CDSFrame(x.value) for x in frames_or_phases]"),
 }
